@@ -26,6 +26,7 @@ def declare(rep):
     rep.rule("C15.eptr-discipline", "a region that catches (...) stores current_exception() under critical into a variable that is rethrown right after the region", floor=3)
     rep.rule("C15.shared-resize", "a container resized inside a parallel region is only accessed under the same critical section", floor=8)
     rep.rule("C15.shared-mutation", "every mutation of shared state in a parallel region (incl. callee closure) is atomic, critical, locked, or confined to the loop's own element", floor=9)
+    rep.rule("C15.population-renumbering", "after the parallel division loop every change of the population is followed by a renumbering of the whole list from position 0 (several divisions in one pass must leave place == local id for every cell)", floor=2)
     rep.rule("C15.remove-index-sorted", "indices collected by the threads of a parallel loop are sorted before remove_index compacts the shared list (thread-completion order must not matter)", floor=1)
     rep.rule("C15.atomic-accumulator", "each component update of vec3::translate is an OpenMP atomic update in the program as built", floor=6)
 
@@ -124,6 +125,8 @@ def _run(rep, prog, tier, only_units):
     from .c10 import run_remove_index
     par_fns = {f["qn"] for f in product_fns(prog) if isinstance(f.get("body"), dict) and any(True for _ in e6.parallel_regions(prog, f))}
     run_remove_index(rep, prog, rule="C15.remove-index-sorted", only=par_fns)
+    from . import c08
+    c08.renumber(rep, prog, rule="C15.population-renumbering", only=("cell_divider::run",))
 
 
 def _place_name(r):
